@@ -200,6 +200,7 @@ func runC09(rep *vh.Report, r *vh.Rng, n int, thorough bool) {
 		c09Scenario(rep, r, e, sc, thorough)
 	}
 	c09MySQL(rep, r, n, thorough)
+	c09xMySQL(rep, r, n, thorough)
 }
 
 func c09Schema(env, dtype, owner string) (config.TableSchemaStore, string) {
@@ -363,6 +364,16 @@ func c09Scenario(rep *vh.Report, r *vh.Rng, e *EnvOps, sc int, thorough bool) {
 
 	// ---- re-verification on decrypt ----
 	c09Reverify(rep, r, e, sc, ks, store, rh, id, rows)
+
+	// ---- extension: condition trees (NOT / parentheses / casts / operand order), hmac.Processor as subscribed by the proxies ----
+	nx := 2
+	if thorough {
+		nx = 5
+	}
+	for q := 0; q < nx; q++ {
+		c09xQueryPG(rep, r, sc, q, schema, yml, ks, store, rh, setting, rows, pool, strTyped)
+	}
+	c09xHmacCols(rep, r, sc, ks, store, rh, senc, setting, setting2, rows)
 }
 
 // searched value classes
